@@ -3,7 +3,7 @@
 import json, os, re
 ROOT = os.path.dirname(os.path.dirname(os.path.abspath(__file__)))
 rows = []
-for seed in sorted(os.listdir(os.path.join(ROOT, "seeded")), key=lambda s: (not s.startswith("revert"), s)):
+for seed in sorted(os.listdir(os.path.join(ROOT, "seeded")), key=lambda s: (0 if s.startswith("revert") else (2 if s.startswith("X") else 1), s)):
     d = os.path.join(ROOT, "seeded", seed)
     if not os.path.exists(os.path.join(d, "meta.json")): continue
     meta = json.load(open(os.path.join(d, "meta.json")))
@@ -17,7 +17,8 @@ for seed in sorted(os.listdir(os.path.join(ROOT, "seeded")), key=lambda s: (not 
     note = meta.get("verdict_note", "")
     status = "caught" if caught_by_own else ("caught by another check" if fired else "MISSED")
     cell = "; ".join(fired) if fired else ""
-    if missed: cell += ("; " if cell else "") + "not fired: " + ", ".join(missed)
+    if missed and len(missed) <= 4: cell += ("; " if cell else "") + "not fired: " + ", ".join(missed)
+    elif missed: cell += ("; " if cell else "") + "not fired: %d other checks (full matrix run)" % len(missed)
     if note: cell += " — " + note.replace("|", "\\|")
     rows.append("| %s | %s | %s | %s | %s |" % (seed, own, title, status, cell))
 table = "| seeded change | property | what was changed | status | checks (quick tier unless noted) and signatures |\n|---|---|---|---|---|\n" + "\n".join(rows)
